@@ -249,6 +249,31 @@ KEYWORD_NAMES = [
 PY_VERSIONS = [[3, 0], [3, 5], [3, 6], [3, 7], [3, 8], [3, 9], [3, 10], [3, 11], [3, 12], [3, 13]]
 
 
+# xonsh subprocess words are built from parts that may be glued together without a blank; every ordered pair of
+# parts, glued, as the word of a captured subprocess and as the head of an uncaptured one (valid xonsh programs in
+# the sense of C03's quantifier: their prefixes and single edits are what a prompt sees)
+WORD_PARTS = ["a", "$HOME", "${'x'}", "$(b)", "@(c)", "@$(d)", "`e.*`", "g`*.py`", "'s'", '"t"', 'f"{u}"', "*.py", "~/v",
+              "$A=", "b'w'", "r'x'", "p'y'", "-z", "1", ">", "2>&1", "|", "&&", "?"]
+
+
+def glued_words() -> list[str]:
+    out = []
+    for p1 in WORD_PARTS:
+        for p2 in WORD_PARTS:
+            out.append(f"$(echo {p1}{p2})\n")
+            out.append(f"![{p1}{p2} c]\n")
+    return out
+
+
+# very long tokens of every lexical class (catastrophic backtracking in a token pattern is a non-termination too)
+LONG_TOKENS = [
+    "x = 1e" + "1" * 64 + "\n", "x = " + "1" * 300 + "\n", "x = 1." + "0" * 100 + "e" + "1" * 100 + "\n",
+    "x = 0x" + "f" * 120 + "\n", "x = " + "1_" * 60 + "1\n", "x = 1e+" + "0" * 60 + "j\n", "x = " + "." * 90 + "\n",
+    "x = " + "\\" * 80 + "\n", "#" + "#" * 300 + "\n", "x = " + "'" * 91 + "\n", "`" + "a" * 200 + "`\n",
+    "$" + "A" * 200 + "\n", "x" + " " * 300 + "= 1\n", "f'" + "{" * 40 + "}" * 40 + "'\n", "x = " + "-" * 150 + "1\n",
+]
+
+
 def build_pool() -> list[str]:
     """Sorted, de-duplicated pool of texts (valid and invalid) of at most MAX_LEN characters."""
     texts: set[str] = set()
